@@ -13,13 +13,14 @@ from flodym import (Dimension, DimensionSet, FlodymArray, Parameter, MFASystem, 
 from flodym.lifetime_models import FixedLifetime, NormalLifetime, FoldedNormalLifetime, LogNormalLifetime, WeibullLifetime
 from flodym.flow_naming import process_names_with_arrow, process_names_no_spaces, process_ids
 from flodym.export.helper import to_valid_file_name
+from flodym.data_reader import (CompoundDataReader, CSVDimensionReader, ExcelDimensionReader, CSVParameterReader, ExcelParameterReader)
 
 LT = {"fixed": FixedLifetime, "normal": NormalLifetime, "folded": FoldedNormalLifetime, "lognormal": LogNormalLifetime,
       "weibull": WeibullLifetime}
 CLS = {"simple": SimpleFlowDrivenStock, "inflow": InflowDrivenDSM, "stockdriven": StockDrivenDSM}
 NAMING = {"arrow": process_names_with_arrow, "no_spaces": process_names_no_spaces, "ids": process_ids}
 DIMNAMES = {"t": "Technology", "a": "Alpha", "b": "Beta Region", "c": "Gamma", "e": "Element"}
-PROC_POOL = ["use", " sorting", "use phase", "waste mgmt.", "re-use (2)", "Fab/rication", "shredder & sorter", "Recycling -> out", "end of life", "market"]
+PROC_POOL = ["use", " sorting", "use phase", "waste mgmt.", "re-use (2)", "Fab/rication", "shredder & sorter", "Recycling -> out", "end of life", "market", "waste outflow"]
 STOCK_NAMES = ["in use", "landfill (old) ", "obsolete-stock", "hibernating"]
 PARAM_NAMES = ["yield", "split share", " lifetime mean", "demand"]
 
@@ -46,7 +47,7 @@ def gen_sysworld(rng, small=False):
             offset = {"a": 0.0, "b": 16.0, "c": 32.0, "e": 48.0, "t": 64.0}[letter]  # pairwise disjoint item sets across dimensions
             items = [x + offset for x in [[0.5, 1.0, 2.0], [0.25, 3.0, 7.5], [10.0, 0.125, 4.0]][(ord(letter) + n) % 3][:n]]
         if kind == "str":
-            flavour = rng.weighted([("plain", 5), ("numeric_looking", 3), ("awkward", 1)])
+            flavour = rng.weighted([("plain", 5), ("numeric_looking", 3), ("awkward", 1), ("name_like", 1)])
             if flavour == "numeric_looking":
                 # a str-typed dimension whose file holds number-like cells next to text
                 items = items[:1] + [str({"a": 1000, "b": 2000, "c": 3000, "e": 5000, "t": 7000}[letter] + 50 * j) for j in range(1, n)]
@@ -55,8 +56,13 @@ def gen_sysworld(rng, small=False):
             elif flavour == "awkward":
                 # tokens that pandas' CSV type / NA inference rewrites unless told not to
                 items = rng.sample(["NA", "01", "1e3", "nan", "None", "true", "N/A", "007"], n)
+            elif flavour == "name_like":
+                # an item that is the dimension's own name up to case or padding (dimension 'Waste', item 'waste'), mostly heading the file:
+                # only a first cell that *equals* the name is a header
+                nm = DIMNAMES[letter]
+                items[0 if rng.chance(0.7) else rng.randint(0, n - 1)] = rng.choice([nm.lower(), nm.upper(), " " + nm, nm + " "])
         dims.append({"letter": letter, "name": DIMNAMES[letter], "items": items, "dtype": kind})
-        if kind == "str" and flavour == "awkward":
+        if kind == "str" and flavour in ("awkward", "name_like"):
             dims[-1]["awkward"] = True
     letters = [d["letter"] for d in dims]
     # ---- processes
@@ -77,7 +83,7 @@ def gen_sysworld(rng, small=False):
         auto = NAMING[naming](_P(procs[i], i), _P(procs[j], j))
         name = auto
         if auto in seen_names or rng.chance(0.15):
-            override = f"{procs[i]} to {procs[j]} #{len(flows)}"
+            override = f"{procs[i]} to {procs[j]} #{len(flows)}" if rng.chance(0.7) else f"{procs[j]} {len(flows)} inflow"
             name = override
         if name in seen_names or not _sanitised_distinct(seen_names + [name]):
             continue
@@ -102,7 +108,7 @@ def gen_sysworld(rng, small=False):
     build = {"path": rng.weighted([("direct", 3), ("reader", 2), ("csv", 3), ("excel", 2)]),
              "dimfiles": {d["letter"]: {"orient": rng.choice(["row", "col"]), "header": rng.chance(0.5)} for d in dims},
              "sheets": rng.chance(0.6), "one_workbook": rng.chance(0.5), "flags": [rng.chance(0.3), rng.chance(0.3)],
-             "dict_order": rng.randint(0, 10 ** 6)}
+             "dict_order": rng.randint(0, 10 ** 6), "via_readers": rng.chance(0.4)}
     return {"alias": rng.randint(0, 1), "dims": dims, "processes": procs, "flows": flows, "stocks": stocks, "params": params, "naming": naming, "build": build}
 
 
@@ -369,7 +375,7 @@ class GenericSystem(MFASystem):
         pass
 
 
-def build_system(world, tmp, faults=(), cls=GenericSystem, applied=None, definition=None):
+def build_system(world, tmp, faults=(), cls=GenericSystem, applied=None, definition=None, holder=None):
     """build through the path named in the world; any exception propagates to the caller.
     `definition`: reuse an existing MFADefinition object (second build from the same definitions)"""
     path = world["build"]["path"]
@@ -418,6 +424,21 @@ def build_system(world, tmp, faults=(), cls=GenericSystem, applied=None, definit
             kwf["allow_missing_parameter_values"] = True
         if ae:
             kwf["allow_extra_parameter_values"] = True
+        if world["build"].get("via_readers"):
+            # the caller builds the reader objects and keeps them (holder): a later build goes through the *same* objects
+            reader = None if holder is None else holder.get("reader")
+            if reader is None:
+                if path == "csv":
+                    reader = CompoundDataReader(dimension_reader=CSVDimensionReader(dimension_files=dim_files),
+                                                parameter_reader=CSVParameterReader(parameter_files=prm_files, allow_missing_values=am, allow_extra_values=ae))
+                else:
+                    reader = CompoundDataReader(
+                        dimension_reader=ExcelDimensionReader(dimension_files=dim_files, dimension_sheets=_reorder(dim_sheets, seed + 2)),
+                        parameter_reader=ExcelParameterReader(parameter_files=prm_files, parameter_sheets=_reorder(prm_sheets, seed + 3),
+                                                              allow_missing_values=am, allow_extra_values=ae))
+                if holder is not None:
+                    holder["reader"] = reader
+            return cls.from_data_reader(definition, reader), definition
         if path == "csv":
             return cls.from_csv(definition, dimension_files=dim_files, parameter_files=prm_files, **kwf), definition
         return _from_excel(cls, definition, dim_files, prm_files, dim_sheets, prm_sheets, seed, kwf), definition
